@@ -445,22 +445,126 @@ func pooled(b *frame.Builder, n int) []byte {
 	return ps
 }
 
+// storeDoc renders a configuration as a generic document under the documented
+// key names (spelled out here, not taken from the struct tags of the code under
+// test, so that a key the decoder no longer recognises shows as a difference).
+func storeDoc(st config.Store) map[string]any {
+	put := func(m map[string]any, k string, v any) {
+		switch x := v.(type) {
+		case string:
+			if x == "" {
+				return
+			}
+		case bool:
+			if !x {
+				return
+			}
+		case int:
+			if x == 0 {
+				return
+			}
+		case uint64:
+			if x == 0 {
+				return
+			}
+		case []string:
+			if len(x) == 0 {
+				return
+			}
+			l := make([]any, len(x))
+			for i := range x {
+				l[i] = x[i]
+			}
+			v = l
+		}
+		m[k] = v
+	}
+	doc := map[string]any{}
+	r := map[string]any{}
+	a := map[string]any{}
+	put(a, "ip", st.Router.Address.IP)
+	put(a, "hash", string(st.Router.Address.Hash))
+	put(a, "type", string(st.Router.Address.Type))
+	put(a, "public", st.Router.Address.PublicKey)
+	put(a, "private", st.Router.Address.PrivateKey)
+	put(a, "easing", st.Router.Address.Easing)
+	r["address"] = a
+	put(r, "universe", st.Router.Universe)
+	put(r, "universeSecret", st.Router.UniverseSecret)
+	put(r, "isolate", st.Router.Isolate)
+	put(r, "listen", st.Router.Listen)
+	put(r, "iana", st.Router.IANA)
+	put(r, "connect", st.Router.Connect)
+	put(r, "autoConnect", st.Router.AutoConnect)
+	put(r, "minAutoConnect", st.Router.MinAutoConnect)
+	put(r, "bootstrap", st.Router.Bootstrap)
+	put(r, "stub", st.Router.Stub)
+	put(r, "lite", st.Router.Lite)
+	doc["router"] = r
+	sys := map[string]any{}
+	put(sys, "tunName", st.System.TunName)
+	put(sys, "tunMTU", st.System.TunMTU)
+	put(sys, "disableTun", st.System.DisableTun)
+	put(sys, "apiListen", st.System.APIListen)
+	put(sys, "statePath", st.System.StatePath)
+	put(sys, "disableChromiumWorkaround", st.System.DisableChromiumWorkaround)
+	if len(sys) > 0 {
+		doc["system"] = sys
+	}
+	if len(st.ServiceConfigs) > 0 {
+		var l []any
+		for _, sc := range st.ServiceConfigs {
+			e := map[string]any{}
+			put(e, "name", sc.Name)
+			put(e, "description", sc.Description)
+			put(e, "domain", sc.Domain)
+			put(e, "url", sc.URL)
+			put(e, "public", sc.Public)
+			put(e, "friends", sc.Friends)
+			put(e, "for", sc.For)
+			put(e, "advertise", sc.Advertise)
+			l = append(l, e)
+		}
+		doc["services"] = l
+	}
+	if len(st.FriendConfigs) > 0 {
+		var l []any
+		for _, fc := range st.FriendConfigs {
+			e := map[string]any{}
+			put(e, "name", fc.Name)
+			put(e, "ip", fc.IP)
+			l = append(l, e)
+		}
+		doc["friends"] = l
+	}
+	if len(st.ResolveConfig) > 0 {
+		rc := map[string]any{}
+		for k, v := range st.ResolveConfig {
+			rc[k] = v
+		}
+		doc["resolve"] = rc
+	}
+	return doc
+}
+
 // loadViaFile writes the configuration to a scratch file of the given type
-// ("json" or "yaml") and loads it with config.LoadConfig.
+// ("json", "yaml" or "yml") and loads it with config.LoadConfig.
 func loadViaFile(st config.Store, typ string) (*config.Config, error) {
-	js, err := json.Marshal(&st)
+	doc := storeDoc(st)
+	var data []byte
+	var err error
+	if typ == "json" {
+		data, err = json.Marshal(doc)
+	} else {
+		// On the pinned tree yaml.v3 panics on the "omitzero" flag in the tags of
+		// the address block (an observation outside the properties, DESIGN.md
+		// 10.3), so a YAML file is written without that block; the node's
+		// identity does not come from the parsed configuration anyway.
+		delete(doc["router"].(map[string]any), "address")
+		data, err = yaml.Marshal(doc)
+	}
 	if err != nil {
 		return nil, err
-	}
-	data := js
-	if typ == "yaml" {
-		var generic map[string]any
-		if err := json.Unmarshal(js, &generic); err != nil {
-			return nil, err
-		}
-		if data, err = yaml.Marshal(generic); err != nil {
-			return nil, err
-		}
 	}
 	dir := "/dev/shm"
 	if _, err := os.Stat(dir); err != nil {
